@@ -48,8 +48,46 @@ type predIn struct {
 	B     *predIn         `json:"b,omitempty"`
 }
 
+type selIn struct {
+	T   string `json:"t"` // key | idx
+	Key Ints   `json:"key"`
+	I   int    `json:"i"`
+}
+
+type jexprIn struct {
+	Label Ints    `json:"label"`
+	Path  []selIn `json:"path"`
+}
+
+type lexprIn struct {
+	Key   Ints `json:"key"`
+	Label Ints `json:"label"`
+}
+
+type partIn struct {
+	T    string `json:"t"` // pattern: lit | cap; template: lit | label | line | upper | fail
+	S    Ints   `json:"s"`
+	Name Ints   `json:"name"`
+}
+
+type renameIn struct {
+	Dst Ints `json:"dst"`
+	Src Ints `json:"src"`
+}
+
+type tmplIn struct {
+	Dst   Ints     `json:"dst"`
+	Parts []partIn `json:"parts"`
+}
+
 type stageIn struct {
-	T      string          `json:"t"` // line | label | logfmt | distinct | drop | keep | raw
+	T      string          `json:"t"` // line | label | logfmt | json | unpack | pattern | distinct | drop | keep | labelfmt | linefmt | decolorize | raw
+	Exprs    []jexprIn   `json:"exprs"`
+	Lexprs   []lexprIn   `json:"lexprs"`
+	Parts    []partIn    `json:"parts"`
+	Renames  []renameIn  `json:"renames"`
+	Tmpls    []tmplIn    `json:"tmpls"`
+	Matchers []matcherIn `json:"matchers"`
 	Op     string          `json:"op"`
 	Val    Ints            `json:"val"`
 	Re     json.RawMessage `json:"re,omitempty"`
@@ -92,21 +130,140 @@ func (p *predIn) text() string {
 	panic("bad pred " + p.T)
 }
 
+func namesText(ls IntsList) []string {
+	out := make([]string, 0, len(ls))
+	for _, l := range ls {
+		out = append(out, S(l))
+	}
+	return out
+}
+
+func pathText(path []selIn) string {
+	var sb strings.Builder
+	for i, sel := range path {
+		switch {
+		case sel.T == "idx":
+			sb.WriteString("[" + strconv.Itoa(sel.I) + "]")
+		case isIdent(S(sel.Key)):
+			if i > 0 {
+				sb.WriteString(".")
+			}
+			sb.WriteString(S(sel.Key))
+		default:
+			sb.WriteString("[" + jsonQuote(S(sel.Key)) + "]")
+		}
+	}
+	return sb.String()
+}
+
+func isIdent(s string) bool {
+	if s == "" || (s[0] >= '0' && s[0] <= '9') {
+		return false
+	}
+	for i := 0; i < len(s); i++ {
+		c := s[i]
+		if !(c == '_' || (c >= '0' && c <= '9') || (c >= 'a' && c <= 'z') || (c >= 'A' && c <= 'Z')) {
+			return false
+		}
+	}
+	return true
+}
+
+// jsonQuote is the reference string encoding of spec/JsonDoc.tla: only quote and backslash are escaped.
+func jsonQuote(s string) string {
+	var sb strings.Builder
+	sb.WriteByte('"')
+	for i := 0; i < len(s); i++ {
+		if s[i] == '"' || s[i] == '\\' {
+			sb.WriteByte('\\')
+		}
+		sb.WriteByte(s[i])
+	}
+	sb.WriteByte('"')
+	return sb.String()
+}
+
+func tmplText(parts []partIn) string {
+	var sb strings.Builder
+	for _, p := range parts {
+		switch p.T {
+		case "lit":
+			sb.WriteString(S(p.S))
+		case "label":
+			sb.WriteString("{{." + S(p.Name) + "}}")
+		case "line":
+			sb.WriteString("{{__line__}}")
+		case "upper":
+			sb.WriteString("{{." + S(p.Name) + " | ToUpper}}")
+		case "fail":
+			sb.WriteString("{{index ." + S(p.Name) + " 99}}")
+		}
+	}
+	return sb.String()
+}
+
+func patText(parts []partIn) string {
+	var sb strings.Builder
+	for _, p := range parts {
+		if p.T == "lit" {
+			sb.WriteString(S(p.S))
+		} else {
+			sb.WriteString("<" + S(p.Name) + ">")
+		}
+	}
+	return sb.String()
+}
+
 func (s *stageIn) text() string {
 	switch s.T {
+	case "json", "logfmt2":
+		var items []string
+		items = append(items, namesText(s.Labels)...)
+		for _, e := range s.Exprs {
+			items = append(items, S(e.Label)+"="+quoteLogQL(pathText(e.Path)))
+		}
+		if len(items) == 0 {
+			return "| json"
+		}
+		return "| json " + strings.Join(items, ", ")
+	case "unpack":
+		return "| unpack"
+	case "pattern":
+		return "| pattern " + quoteLogQL(patText(s.Parts))
+	case "decolorize":
+		return "| decolorize"
+	case "linefmt":
+		return "| line_format " + quoteLogQL(tmplText(s.Parts))
+	case "labelfmt":
+		var items []string
+		for _, r := range s.Renames {
+			items = append(items, S(r.Dst)+"="+S(r.Src))
+		}
+		for _, t := range s.Tmpls {
+			items = append(items, S(t.Dst)+"="+quoteLogQL(tmplText(t.Parts)))
+		}
+		return "| label_format " + strings.Join(items, ", ")
 	case "line":
 		op := map[string]string{"eq": "|=", "neq": "!=", "re": "|~", "nre": "!~"}[s.Op]
 		return op + " " + quoteLogQL(S(s.Val))
 	case "label":
 		return "| " + s.Pred.text()
 	case "logfmt":
-		return "| logfmt"
+		var items []string
+		items = append(items, namesText(s.Labels)...)
+		for _, e := range s.Lexprs {
+			items = append(items, S(e.Label)+"="+quoteLogQL(S(e.Key)))
+		}
+		if len(items) == 0 {
+			return "| logfmt"
+		}
+		return "| logfmt " + strings.Join(items, ", ")
 	case "distinct":
 		return "| distinct " + S(s.Label)
 	case "drop", "keep":
-		names := make([]string, 0, len(s.Labels))
-		for _, l := range s.Labels {
-			names = append(names, S(l))
+		names := namesText(s.Labels)
+		for _, m := range s.Matchers {
+			names = append(names, S(m.Label)+opText[m.Op]+quoteLogQL(S(m.Val)))
 		}
 		return "| " + s.T + " " + strings.Join(names, ", ")
 	case "raw":
@@ -435,6 +592,10 @@ func (famLogq) Gen(r *rand.Rand, n int, opt map[string]string) []any {
 	for i := 0; i < n; i++ {
 		if opt["mode"] == "algebra" {
 			out = append(out, genAlgebra(r))
+		} else if opt["mode"] == "extract" {
+			out = append(out, genExtract(r))
+		} else if opt["mode"] == "rewrite" {
+			out = append(out, genRewrite(r))
 		} else {
 			out = append(out, genLogq(r, opt["mode"]))
 		}
@@ -551,4 +712,39 @@ func genAlgebra(r *rand.Rand) logqIn {
 			cat(base, stageIn{T: "label", Pred: a}), cat(base, stageIn{T: "label", Pred: b}), cat(base)}
 	}
 	return in
+}
+
+// MarshalJSON writes empty arrays instead of null (TLC's JSON reader rejects null).
+func (s stageIn) MarshalJSON() ([]byte, error) {
+	type alias stageIn
+	a := alias(s)
+	if a.Exprs == nil {
+		a.Exprs = []jexprIn{}
+	}
+	if a.Lexprs == nil {
+		a.Lexprs = []lexprIn{}
+	}
+	if a.Parts == nil {
+		a.Parts = []partIn{}
+	}
+	if a.Renames == nil {
+		a.Renames = []renameIn{}
+	}
+	if a.Tmpls == nil {
+		a.Tmpls = []tmplIn{}
+	}
+	if a.Matchers == nil {
+		a.Matchers = []matcherIn{}
+	}
+	for i := range a.Tmpls {
+		if a.Tmpls[i].Parts == nil {
+			a.Tmpls[i].Parts = []partIn{}
+		}
+	}
+	for i := range a.Exprs {
+		if a.Exprs[i].Path == nil {
+			a.Exprs[i].Path = []selIn{}
+		}
+	}
+	return json.Marshal(a)
 }
